@@ -154,6 +154,35 @@ def cmd_ok(c: "WorkflowCommand", p: "WorkflowCommand", i: "int", tick: "TickStep
     )
 
 
+def output_queued(cmds: "list[WorkflowCommand]", ev: "Event"):
+    """the returned event ev is handed to routing by some command (published right before if it asks for input)"""
+    return exists(
+        len(cmds),
+        lambda i: isinstance(cmds[i], CommandQueueEvent)
+        and same(cmds[i].event, ev)
+        and cmds[i].step_name is None
+        and (
+            (not isinstance(ev, InputRequiredEvent))
+            or (i >= 1 and isinstance(cmds[i - 1], CommandPublishEvent) and same(cmds[i - 1].event, ev))
+        ),
+    )
+
+
+def no_forged_telemetry(tick: "TickStepResult"):
+    """API-usage assumption: the prompt event handed to ctx.wait_for_event(waiter_event=...) is not itself an engine
+    telemetry event (StepStateChanged); otherwise user code could forge any lifecycle trace"""
+    return forall(
+        len(tick.result),
+        lambda k: (not isinstance(tick.result[k], AddWaiter))
+        or tick.result[k].waiter_event is None
+        or not type_is(opt_val(tick.result[k].waiter_event), StepStateChanged),
+    )
+
+
+def is_plain_output(r: "StepFunctionResult"):
+    return isinstance(r, StepWorkerResult) and r.result is not None and not isinstance(r.result, StopEvent)
+
+
 def cleared(ws2: "InternalStepWorkerState", ws: "InternalStepWorkerState"):
     """after a StopEvent: collected events / waiters dropped, everything else as before"""
     return (
@@ -195,7 +224,7 @@ class StepResultTick:
     raises = ["ValueError"]
 
     def requires(tick, init, now_seconds, run_id):
-        return wf(init) and Inv1(init) and tick.step_name in init.workers
+        return wf(init) and Inv1(init) and tick.step_name in init.workers and no_forged_telemetry(tick)
 
     def raises_ValueError(old, tick, init, now_seconds, run_id):
         # only the documented "should not happen" case: the reporting worker is not in progress
@@ -222,6 +251,20 @@ class StepResultTick:
                 lambda i: cmd_ok(
                     commands[i], commands[i - 1], i, tick, this_execution.attempts, this_execution.first_attempt_at,
                     this_execution.recovery_counts, init.config
+                ),
+            )
+            # the result loop itself publishes no step telemetry (that happens after it, exactly once)
+            and forall(
+                len(commands),
+                lambda i: not (
+                    isinstance(commands[i], CommandPublishEvent) and type_is(commands[i].event, StepStateChanged)
+                ),
+            )
+            # every output returned so far has been handed to routing
+            and forall(
+                _i,
+                lambda k: implies(
+                    is_plain_output(tick.result[k]), output_queued(commands, opt_val(tick.result[k].result))
                 ),
             )
             # C01: the only worker started by the result loop is a re-run of the reporting slot itself
@@ -283,6 +326,12 @@ class StepResultTick:
             )
             and len(commands) >= len(pre(commands))
             and forall(len(pre(commands)), lambda i: same(commands[i], pre(commands)[i]))
+            and forall(
+                len(tick.result),
+                lambda k: implies(
+                    is_plain_output(tick.result[k]), output_queued(commands, opt_val(tick.result[k].result))
+                ),
+            )
             and forall_range(
                 len(pre(commands)),
                 len(commands),
@@ -346,6 +395,24 @@ class StepResultTick:
                 len(cmds),
                 lambda i: isinstance(cmds[i], CommandRunWorker) and cmds[i].id == tick.worker_id,
             )
+            # ... and a slot that keeps running is not announced as NOT_RUNNING (its RUNNING stays unmatched until
+            # the re-run really ends)
+            and not (
+                len(cmds) >= 1
+                and isinstance(cmds[0], CommandPublishEvent)
+                and type_is(cmds[0].event, StepStateChanged)
+                and cmds[0].event.step_state == StepState.NOT_RUNNING
+            )
+        )
+
+    def ensures_outputs_complete(old, tick, init, now_seconds, run_id, result):
+        # C02 / C35: every event a step returns is queued exactly for routing (one CommandQueueEvent carrying it), and a
+        # returned InputRequiredEvent is published - here, once, and nowhere else (routing publishes nothing but
+        # UnhandledEvent, see AddEventTick.ensures_unhandled)
+        cmds = result[1]
+        return forall(
+            len(tick.result),
+            lambda k: (not is_plain_output(tick.result[k])) or output_queued(cmds, opt_val(tick.result[k].result)),
         )
 
     def ensures_work_conserving(old, tick, init, now_seconds, run_id, result):
